@@ -72,6 +72,14 @@ func genC14(r *simrt.Rand, tier string) *simrt.Plan {
 				ops = append(ops, simrt.Op{K: "restart"})
 			}
 		}
+		// a bulk value import between queries: rows the queries cached must not survive it
+		if x := r.Intn(25); x == 0 {
+			if op, ok := g.bulkVal(); ok {
+				ops = append(ops, op,
+					simrt.Op{K: "sum", S: []string{g.index, op.S[1], ""}, I: []int64{g.node()}},
+					simrt.Op{K: simrt.Pick(r, "min", "max"), S: []string{g.index, op.S[1], ""}, I: []int64{g.node()}})
+			}
+		}
 	}
 	return dbPlan(r, nodes, replicas, ops)
 }
@@ -438,27 +446,7 @@ func genC08(r *simrt.Rand, tier string) *simrt.Plan {
 		}
 		return qs
 	}
-	// a batch large enough for importValue's direct-write path (estimate over MaxOpN) whose
-	// changed bits stay under MaxOpN: nothing is logged, only the snapshot makes it durable
-	bulk := func() (simrt.Op, bool) {
-		for i := range g.fields {
-			f := &g.fields[i]
-			if span := f.max - f.min; f.typ == "int" && span >= 0 && span <= 4000 {
-				lo, hi := f.min, f.max
-				if r.Bool(0.4) { // narrow values: many batch entries, few changed bits each
-					lo = f.min + span/2
-					hi = lo + simrt.Pick(r, int64(0), 1, 3)
-					if hi > f.max {
-						hi = f.max
-					}
-				}
-				n := simrt.Pick(r, int64(900), 1500, 3600, 5200)
-				first := int64(simrt.Pick(r, 0, 1, 2)) << 20
-				return simrt.Op{K: "bulkval", S: []string{g.index, f.name}, I: []int64{0, first + int64(r.Intn(50)), n, int64(r.Uint64() >> 2), lo, hi}}, true
-			}
-		}
-		return simrt.Op{}, false
-	}
+	bulk := g.bulkVal
 	n := 6 + r.Intn(30)
 	for i := 0; i < n; i++ {
 		switch x := r.Intn(12); {
@@ -481,4 +469,28 @@ func genC08(r *simrt.Rand, tier string) *simrt.Plan {
 	ops = append(ops, simrt.Op{K: "restart"})
 	ops = append(ops, battery()...)
 	return dbPlan(r, 1, 1, ops)
+}
+
+// bulkVal: a batch large enough for importValue's direct-write path (estimate over MaxOpN)
+// whose changed bits stay under MaxOpN: nothing is logged, only the snapshot makes it durable,
+// and every cached row of the fragment is stale afterwards.
+func (g *dbGen) bulkVal() (simrt.Op, bool) {
+	r := g.r
+	for i := range g.fields {
+		f := &g.fields[i]
+		if span := f.max - f.min; f.typ == "int" && span >= 0 && span <= 4000 {
+			lo, hi := f.min, f.max
+			if r.Bool(0.4) { // narrow values: many batch entries, few changed bits each
+				lo = f.min + span/2
+				hi = lo + simrt.Pick(r, int64(0), 1, 3)
+				if hi > f.max {
+					hi = f.max
+				}
+			}
+			n := simrt.Pick(r, int64(900), 1500, 3600, 5200)
+			first := int64(simrt.Pick(r, 0, 1, 2)) << 20
+			return simrt.Op{K: "bulkval", S: []string{g.index, f.name}, I: []int64{g.node(), first + int64(r.Intn(50)), n, int64(r.Uint64() >> 2), lo, hi}}, true
+		}
+	}
+	return simrt.Op{}, false
 }
